@@ -260,7 +260,24 @@ def _shared_values(ctx: Ctx, item):
     ctx.klass("shared_value_fields", len(fields))
 
 
+def _clients(ctx: Ctx, item=None):
+    """Unit preferences handed to each gateway client, in the spellings the decoder accepts: the client delivers what a bare decoder with
+    the same preferences returns."""
+    from nmea2000.consts import PhysicalQuantities as PQ
+    from .. import clientopts as co
+    msgs = co.standard_traffic(co.CONVERTIBLE + co.FAST[:2], claims=False)
+    sets = []
+    for label, prefs in (("C/deg/kts/bar", {"TEMPERATURE": "C", "ANGLE": "deg", "SPEED": "kts", "PRESSURE": "bar"}),
+                         ("c/DEG/KTS/BAR", {"TEMPERATURE": "c", "ANGLE": "DEG", "SPEED": "KTS", "PRESSURE": "BAR"}),
+                         ("F/Deg/Kts/psi", {"TEMPERATURE": "F", "ANGLE": "Deg", "SPEED": "Kts", "PRESSURE": "psi"}),
+                         ("f/PSI", {"TEMPERATURE": "f", "PRESSURE": "PSI"}),
+                         ("unrecognised", {"TEMPERATURE": "rankine", "ANGLE": "grad"}),
+                         ("none", {})):
+        sets.append(("preferred_units " + label, lambda prefs=prefs: {"preferred_units": {getattr(PQ, q): u for q, u in prefs.items()}}))
+    co.run(ctx, "C18", sets, msgs)
+
 def run(ctx: Ctx):
+    pmap(ctx, _clients, [None])
     db = canboat.db()
     pmap(ctx, _shared_values, [(q,) for q in RECOGNISED])
     multi = [pgn for pgn, ds in db.by_pgn.items() if len(ds) > 1 and any(f.pq in RECOGNISED for d in ds for f in d.fields)]
@@ -275,6 +292,9 @@ def run(ctx: Ctx):
 
 
 def replay(ctx: Ctx, case):
+    if case.get("clientopts"):
+        from .. import clientopts as co
+        return co.replay("C18", _clients, case)
     ck = Checker(ctx)
     d = canboat.db().by_key[case["definition"]]
     data = bytes.fromhex(case["payload_hex"])
